@@ -3,6 +3,7 @@ CONSTANTS
   Thorough = FALSE
 SPECIFICATION Spec
 INVARIANT DCKept
+INVARIANT UnionLaws
 INVARIANT Symmetric
 INVARIANT GridLemma
 INVARIANT Emit
